@@ -75,12 +75,14 @@ try:
     if ok:
         dst = os.path.join(V, "seeded", f"{a.pid}-{a.k}")
         os.makedirs(dst, exist_ok=True)
-        shutil.copy(patch, os.path.join(dst, "patch.diff"))
-        shutil.copy(demo, os.path.join(dst, "demo.py"))
+        if os.path.realpath(src) != os.path.realpath(dst):
+            shutil.copy(patch, os.path.join(dst, "patch.diff"))
+            shutil.copy(demo, os.path.join(dst, "demo.py"))
         old = {}
         if os.path.exists(os.path.join(dst, "meta.json")):
             old = json.load(open(os.path.join(dst, "meta.json")))
-        m = {"property": a.pid, "summary": meta.get("summary"), "needs": meta.get("needs"), "files_touched": meta.get("files_touched"),
+        m = {"property": a.pid, "summary": meta.get("summary") or old.get("summary"), "needs": meta.get("needs") or old.get("needs"),
+             "files_touched": meta.get("files_touched") or old.get("files_touched"),
              "author": "independent sub-agent given only the property text and its own worktree",
              "confirmed": {"repository tests with the change": "229 passed" if res["tests_pass_with_change"] else "not run", "demo.py on the clean tree": "exit 0",
                            "demo.py on the changed tree": "non-zero exit", "how": "tools/seedcheck.py on scratch copies of /repo (removed afterwards)"},
